@@ -55,7 +55,7 @@ pub fn init() {
                 .location()
                 .map(|l| format!("{}:{}", l.file(), l.line()))
                 .unwrap_or_else(|| "?".into());
-            if !IN_WORLD.with(|w| w.get()) {
+            if !IN_WORLD.with(|w| w.get()) && !msg.contains("was called on empty stack") {
                 eprintln!("harness panic: {msg} @ {loc}");
             }
             FIRST_PANIC.with(|p| {
